@@ -58,6 +58,24 @@ func (k Keeper) Repay(ctx sdk.Context, mtp *types.MTP, pool *types.Pool, ammPool
 
 	// This is for accounting purposes, mtp.Custody gets reduced by borrowInterestPaymentCustody and funding fee. so msg.Amount is greater than mtp.Custody here. So if it's negative it should be closed
 	if mtp.Custody.IsZero() || mtp.Custody.IsNegative() {
+		// the position is removed although it may have been closed only in part (its custody was used up by interest
+		// and funding): whatever it still carries has to leave the pool totals with it, or the pool would keep counting
+		// liabilities and collateral of a position that no longer exists
+		if err = pool.UpdateLiabilities(mtp.LiabilitiesAsset, mtp.Liabilities, false, mtp.Position); err != nil {
+			return err
+		}
+		if err = pool.UpdateCollateral(mtp.CollateralAsset, mtp.Collateral, false, mtp.Position); err != nil {
+			return err
+		}
+		if err = pool.UpdateCustody(mtp.CustodyAsset, mtp.Custody, false, mtp.Position); err != nil {
+			return err
+		}
+		if err = pool.UpdateTakeProfitLiabilities(mtp.LiabilitiesAsset, mtp.TakeProfitLiabilities, false, mtp.Position); err != nil {
+			return err
+		}
+		if err = pool.UpdateTakeProfitCustody(mtp.CustodyAsset, mtp.TakeProfitCustody, false, mtp.Position); err != nil {
+			return err
+		}
 		err = k.DestroyMTP(ctx, mtp.GetAccountAddress(), mtp.Id)
 		if err != nil {
 			return err
